@@ -252,6 +252,33 @@ func (w *World) LockTrouble() string {
 
 var worldSockSeq int64
 
+// poolKeeper: rend gives the batching pool no way to stop, so every deployment with a pooled L1
+// leaves the pool's goroutines parked for good. A breadth-first search runs hundreds of thousands
+// of deployments; for those the whole search runs inside ONE bubble and all its deployments share
+// one pool (as the connections of one long-running memproxy do), pointed at the fresh backend of
+// each execution. Between executions the pool is idle: every command has been answered.
+type poolKeeper struct {
+	sock  string
+	world *World
+	conns []*fakemc.Conn
+}
+
+var curKeeper *poolKeeper
+
+// KeepPool switches the sharing on until the returned function is called. Must be called inside
+// the bubble that will run the executions.
+func KeepPool() (release func()) {
+	k := &poolKeeper{}
+	curKeeper = k
+	return func() {
+		if k.sock != "" {
+			batched.VerifForget(k.sock)
+			vnet.DialHook = nil
+		}
+		curKeeper = nil
+	}
+}
+
 // Release forgets the world's batching relay (its goroutines stay parked) and the dial hook.
 func (w *World) Release() {
 	if w.guard != nil {
@@ -349,6 +376,31 @@ func (w *World) newHandler(tier int, kind string, store *fakemc.Store) (handlers
 		// relay per world, every client connection gets its own Handler on it, as memproxy does
 		w.Conns = w.Conns[:len(w.Conns)-1]
 		store.Opened--
+		if k := curKeeper; k != nil {
+			// one pool for all executions of this bubble (see poolKeeper)
+			if k.world != w {
+				k.world = w
+				for _, pc := range k.conns {
+					pc.Retarget(store)
+					w.Conns = append(w.Conns, pc)
+				}
+			}
+			if k.sock == "" {
+				k.sock = fmt.Sprintf("verif-kept-sock-%d", atomic.AddInt64(&worldSockSeq, 1))
+				vnet.DialHook = func(network, address string) (net.Conn, error) {
+					cw := k.world
+					pc := fakemc.NewConn(cw.L1, "pool:"+address)
+					pc.Async = true
+					appMu.Lock()
+					k.conns = append(k.conns, pc)
+					cw.Conns = append(cw.Conns, pc)
+					appMu.Unlock()
+					return pc, nil
+				}
+			}
+			h = batched.NewHandler(k.sock, batched.Opts{BatchSize: 2, BatchDelayMicros: 100, ReadBufSize: 512, WriteBufSize: 512, EvaluationIntervalSec: 4000000000, LoadFactorExpandRatio: 1000, OverloadedConnRatio: 1000})
+			break
+		}
 		if w.batchSock == "" {
 			w.batchSock = fmt.Sprintf("verif-world-sock-%d", atomic.AddInt64(&worldSockSeq, 1))
 			vnet.DialHook = func(network, address string) (net.Conn, error) {
